@@ -131,6 +131,8 @@ def sec_rope(repo, c):
     m2 = one(fi, rel, r'\.len\(\)\s*!=\s*(\d+)', 'len() != N in Rope::from_iter')
     c['FROM_ITER_TAKE'] = int(m1.group(1))
     c['FROM_ITER_FULL'] = int(m2.group(1))
+    if c['FROM_ITER_TAKE'] != c['FROM_ITER_FULL']:
+        raise TranslateError(f"{rel}: Rope::from_iter takes {c['FROM_ITER_TAKE']} per chunk but tests len() != {c['FROM_ITER_FULL']}: the model has one constant for both")
     nw = block_after(t, rel, r'pub\s+fn\s+new\(\)\s*->\s*Self\s*\{', 'Rope::new')
     body = re.sub(r'\s+', '', nw)
     if body == '{Self(Vec::from([slots::ArrayMap::new()]))}':
@@ -139,6 +141,25 @@ def sec_rope(repo, c):
         c['ROPE_NEW_CHUNKS'] = 0
     else:
         raise TranslateError(f"{rel}: Rope::new body not recognised: {body}")
+    # ---- slots.rs: direction of rev_pos in the owning iterator's next_back
+    rel = 'src/collections/rope/slots.rs'
+    t = read(repo, rel)
+    nbs = [b for b in all_blocks(t, rel, r'fn\s+next_back\(&mut\s+self\)\s*->\s*Option<Self::Item>\s*\{', 'next_back fns', 2) if 'rev_pos' in b]
+    if len(nbs) != 1:
+        raise TranslateError(f"{rel}: expected one next_back using rev_pos, found {len(nbs)}")
+    nb = nbs[0]
+    upd = re.findall(r'self\.rev_pos\s*([^;]*);', nb)
+    upd = [re.sub(r'\s+', '', u) for u in upd if not u.strip().startswith(')')]
+    upd = [u for u in upd if u.startswith('=') or u.startswith('+=') or u.startswith('-=')]
+    if upd == ['+=1']:
+        c['REV_POS_DOWN'] = False
+    elif upd in (['=self.rev_pos.wrapping_sub(1)'],):
+        c['REV_POS_DOWN'] = True
+    else:
+        raise TranslateError(f"{rel}: next_back updates rev_pos by {upd}: not one of the two forms the model knows")
+    ip = one(t, rel, r'let\s+rev_pos\s*=\s*([^;]+);', 'initial rev_pos in into_iter')
+    if re.sub(r'\s+', '', ip.group(1)) != 'self.len().saturating_sub(1)':
+        raise TranslateError(f"{rel}: initial rev_pos is {ip.group(1)!r}, the model has len().saturating_sub(1)")
 
 def sec_features(repo, c):
     rel = 'Cargo.toml'
@@ -183,7 +204,8 @@ def render(c, errs):
             for n in ('LEVENSHTEIN_CUTOFF', 'DELETE_COST', 'REPLACE_COST', 'INSERT_COST'))
     if 'rope' not in errs:
         files['ConstsRope.v'] = HDR + "".join(f"Definition {n} : nat := {nat(c[n])}.\n"
-            for n in ('MAX_SLOT_SIZE', 'BASE_SLOT_SIZE', 'UNDERSIZED_SLOT', 'FROM_ITER_TAKE', 'FROM_ITER_FULL', 'ROPE_NEW_CHUNKS'))
+            for n in ('MAX_SLOT_SIZE', 'BASE_SLOT_SIZE', 'UNDERSIZED_SLOT', 'FROM_ITER_TAKE', 'FROM_ITER_FULL', 'ROPE_NEW_CHUNKS')) + \
+            f"Definition REV_POS_DOWN : bool := {'true' if c['REV_POS_DOWN'] else 'false'}.\n"
     if 'ordered_wire' not in errs:
         ov = ['Replace', 'Insert', 'Delete', 'Swap']
         files['ConstsOrderedWire.v'] = HDR + "(* nanoserde discriminants of the ordered change, order: Replace Insert Delete Swap *)\n" + "\n".join(
